@@ -75,7 +75,10 @@ func (s *snapshots) latestIndex() uint64 {
 }
 
 func (s *snapshots) meta() (snapshotMeta, error) {
-	index := s.latestIndex()
+	return s.metaOf(s.latestIndex())
+}
+
+func (s *snapshots) metaOf(index uint64) (snapshotMeta, error) {
 	if index == 0 {
 		return snapshotMeta{index: 0, term: 0}, nil
 	}
@@ -111,8 +114,23 @@ func (s *snapshots) applyRetain() error {
 
 // snapshot ----------------------------------------------------
 
-func (s *snapshots) open() (*snapshot, error) {
-	meta, err := s.meta()
+func (s *snapshots) open() (_ *snapshot, err error) {
+	// register as user before looking at the files. mu is held by
+	// snapshotSink.done while it publishes and applies retain, so
+	// either it sees our use, or we see its snapshot as the latest
+	s.mu.RLock()
+	snap := &snapshot{snaps: s, meta: snapshotMeta{index: s.index}}
+	s.usedMu.Lock()
+	s.used[s.index]++
+	s.usedMu.Unlock()
+	s.mu.RUnlock()
+	defer func() {
+		if err != nil {
+			snap.release()
+		}
+	}()
+
+	meta, err := s.metaOf(snap.meta.index)
 	if err != nil {
 		return nil, err
 	}
@@ -131,14 +149,8 @@ func (s *snapshots) open() (*snapshot, error) {
 	if err != nil {
 		return nil, err
 	}
-	s.usedMu.Lock()
-	s.used[meta.index]++
-	s.usedMu.Unlock()
-	return &snapshot{
-		snaps: s,
-		meta:  meta,
-		file:  f,
-	}, nil
+	snap.meta, snap.file = meta, f
+	return snap, nil
 }
 
 type snapshot struct {
